@@ -30,6 +30,25 @@ pub(crate) fn validate_values(
     value_of_correct_type(diagnostics, schema, ty, &argument.value, var_defs);
 }
 
+/// Input Object Field Uniqueness: an object literal must not repeat a field name
+fn input_object_fields_are_unique(
+    diagnostics: &mut DiagnosticList,
+    obj: &[(crate::Name, Node<ast::Value>)],
+) {
+    for (index, (name, _value)) in obj.iter().enumerate() {
+        if let Some((original, _)) = obj[..index].iter().find(|(prev, _)| prev == name) {
+            diagnostics.push(
+                name.location(),
+                DiagnosticData::UniqueInputValue {
+                    name: name.clone(),
+                    original_definition: original.location(),
+                    redefined_definition: name.location(),
+                },
+            );
+        }
+    }
+}
+
 /// Report variables used anywhere inside `value` that are not in `var_defs`
 fn variables_are_defined(
     diagnostics: &mut DiagnosticList,
@@ -53,6 +72,7 @@ fn variables_are_defined(
             }
         }
         ast::Value::Object(fields) => {
+            input_object_fields_are_unique(diagnostics, fields);
             for (_name, field_value) in fields {
                 variables_are_defined(diagnostics, field_value, var_defs);
             }
@@ -234,11 +254,13 @@ pub(crate) fn value_of_correct_type(
             // Any value is valid for a custom scalar,
             // but variables used inside of it must still be defined.
             schema::ExtendedType::Scalar(scalar) if !scalar.is_built_in() => {
+                input_object_fields_are_unique(diagnostics, obj);
                 for (_name, value) in obj {
                     variables_are_defined(diagnostics, value, var_defs);
                 }
             }
             schema::ExtendedType::InputObject(input_obj) => {
+                input_object_fields_are_unique(diagnostics, obj);
                 let undefined_field = obj
                     .iter()
                     .find(|(name, ..)| !input_obj.fields.contains_key(name));
@@ -282,9 +304,7 @@ pub(crate) fn value_of_correct_type(
                         );
                     }
 
-                    let used_val = obj.iter().find(|(obj_name, ..)| obj_name == input_name);
-
-                    if let Some((_, v)) = used_val {
+                    for (_, v) in obj.iter().filter(|(obj_name, ..)| obj_name == input_name) {
                         value_of_correct_type(diagnostics, schema, ty, v, var_defs);
                     }
                 })
